@@ -13,7 +13,7 @@ func init() { corrTable["C05"] = func(r *Run) { connInChild(r, corrC05) } }
 
 func corrC05(r *Run) {
 	r.Import("Model.ConnRun")
-	r.PerShard(10)
+	r.PerShard(16)
 	r.Rule = "forced schedules: 1..8 (thorough: ..32) goroutines calling Submit with request PDUs of all 15 request types and distinct positive sequence numbers; " +
 		"random walks over {issue a call (its frame reaches the transport, the Write is held), let a Write return, make the response to a written request readable, " +
 		"make an unsolicited PDU readable}: responses in any order, before or after the Write returns; fast or slow consumer of PDU(); " +
@@ -81,6 +81,7 @@ func c05Scenario(r *Run, ts []pduType, idx, maxCallers int) {
 		specs[0].Seq = 1
 	}
 	var wantApp []Delivery
+	stalled := ""
 	started := 0
 	earlyAny := false
 	for steps := 0; steps < 40*n+40 && w.Stuck == ""; steps++ {
@@ -113,12 +114,19 @@ func c05Scenario(r *Run, ts []pduType, idx, maxCallers int) {
 			if w.Held(x.c) {
 				x.early, earlyAny = true, true
 			}
-			w.PeerPDU(respFor(x.c.P, x.c.Seq))
+			if rng.Intn(4) == 0 { // the peer may refuse the request: still the response Submit has to return, without error
+				w.PeerPDU(respStatus(x.c.P, x.c.Seq, uint32(1+rng.Intn(0x400))))
+			} else {
+				w.PeerPDU(respFor(x.c.P, x.c.Seq))
+			}
 		case k == 9:
 			f := genUnsolicited(rng, ts, fresh())
 			_, id, s := classifyFrame(f)
 			wantApp = append(wantApp, Delivery{id, s})
 			w.Peer([][]byte{f}, [][]int{genCuts(rng, len(f))})
+			if auto && w.Stuck == "" && len(w.App()) != len(wantApp) && stalled == "" {
+				stalled = fmt.Sprintf("after %s: PDU() yielded %d of %d unsolicited PDUs", w.Script(), len(w.App()), len(wantApp))
+			}
 		default:
 			if started < n {
 				c := w.Go(started, specs[started])[0]
@@ -151,6 +159,10 @@ func c05Scenario(r *Run, ts []pduType, idx, maxCallers int) {
 			}
 			r.Fail(cls, "Submit did not return, without error, the response carrying its own sequence number", input, got, want)
 		}
+	}
+	if stalled != "" {
+		r.Fail("dispatch/stalled-behind-a-waiter", "Watch stopped dispatching inbound PDUs while a Submit call was still inside its transport Write", input,
+			tail(stalled, 300), "an unsolicited PDU is delivered to a receiving application regardless of the callers' progress")
 	}
 	got := w.App()
 	same := len(got) == len(wantApp)
